@@ -30,3 +30,4 @@ func verifOr(a, b bool) bool
 func verifIfaceEq(a, b interface{}) bool
 func verifCmpU64(a, b uint64) int
 func verifIteB(c bool, a, b bool) bool
+func verifStrSame(a, b string) bool
